@@ -183,6 +183,13 @@ func (s *SelectStmt) ValidateFields(ctx *CheckCtx) error {
 			return NewSyntaxError(ref.GetPos(), "Field %s is defined in terms of itself", ref.Name.Data)
 		}
 	}
+	// The types were taken while parsing, when a name that refers to another
+	// field was not resolved yet: take them again now that the fields are checked
+	for i, f := range s.Fields {
+		if i < len(s.FieldTypes) {
+			s.FieldTypes[i] = f.ReturnType()
+		}
+	}
 	return nil
 }
 
